@@ -33,6 +33,17 @@ var twinTexts = []string{`{ echo(s: "a b") }`, `{ echo(s: "a  b") }`}
 
 func allTexts() []string { return append(append([]string{}, texts...), twinTexts...) }
 
+// texts[0] padded with white space: a line feed is white space for Go and for GraphQL, form feed and U+00A0 only for Go.
+// Each is a different text from texts[0] and hashes differently.
+var padTexts = []string{"\n{ a }\n", "\f{ a }", "{ a }\u00a0"}
+
+// enc names a text for the Coq side (its string literals hold printable ASCII only); injective on the texts used.
+func enc(s string) string {
+	return strings.NewReplacer("\n", "<LF>", "\f", "<FF>", "\u00a0", "<NBSP>").Replace(s)
+}
+
+func hashedTexts() []string { return append(allTexts(), padTexts...) }
+
 // docText renders a parsed document canonically (insignificant white space normalised, string values kept)
 func docText(d *ast.QueryDocument) string {
 	var sb strings.Builder
@@ -98,7 +109,7 @@ func (r req) coq() string {
 	case "ok":
 		ext = fmt.Sprintf("(ExtOk %s %s)", gen.Str(r.Sha), gen.Z(int64(r.Version)))
 	}
-	return fmt.Sprintf("{| q_text := %s; q_ext := %s |}", gen.Str(r.Text), ext)
+	return fmt.Sprintf("{| q_text := %s; q_ext := %s |}", gen.Str(enc(r.Text)), ext)
 }
 
 type obs struct {
@@ -110,7 +121,7 @@ func (o obs) coq() string {
 	if o.Err != "" {
 		return "ObsErr " + gen.Str(o.Err)
 	}
-	return "ObsExec " + gen.Str(o.Exec)
+	return "ObsExec " + gen.Str(enc(o.Exec))
 }
 
 type probeKV struct {
@@ -236,8 +247,8 @@ func Run(c *gen.Ctx) error {
 		Type: "apq_case", Checks: []gen.Check{{"corr", "apq_corr"}, {"mon", "apq_monitor"}, {"monmodel", "apq_monitor_on_model"}}, Shard: 400}
 	var hashTbl []string
 	probeKeys := []string{"deadbeef"}
-	for _, t := range allTexts() {
-		hashTbl = append(hashTbl, fmt.Sprintf("(%s, %s)", gen.Str(t), gen.Str(sha(t))))
+	for _, t := range hashedTexts() {
+		hashTbl = append(hashTbl, fmt.Sprintf("(%s, %s)", gen.Str(enc(t)), gen.Str(sha(t))))
 		probeKeys = append(probeKeys, sha(t))
 	}
 	var descr []any
@@ -272,7 +283,7 @@ func Run(c *gen.Ctx) error {
 		for _, kv := range p {
 			v := "None"
 			if kv.Val != nil {
-				v = "(Some " + gen.Str(*kv.Val) + ")"
+				v = "(Some " + gen.Str(enc(*kv.Val)) + ")"
 			}
 			pr = append(pr, fmt.Sprintf("(%s, %s)", gen.Str(kv.Key), v))
 		}
@@ -336,6 +347,15 @@ func Run(c *gen.Ctx) error {
 		}
 	}
 	rec2(nil, 3)
+	// padded texts sent with the hash of the unpadded text (a mismatch: the hash is of the text as sent), every
+	// history up to length 3 together with honest registrations and hash-only requests
+	twin = nil
+	for _, t := range padTexts {
+		twin = append(twin, req{Text: t, Ext: "ok", Sha: sha(texts[0]), Version: 1})
+	}
+	twin = append(twin, req{Text: padTexts[0], Ext: "ok", Sha: sha(padTexts[0]), Version: 1}, req{Text: texts[0], Ext: "ok", Sha: sha(texts[0]), Version: 1},
+		req{Ext: "ok", Sha: sha(texts[0]), Version: 1}, req{Ext: "ok", Sha: sha(padTexts[0]), Version: 1})
+	rec2(nil, 3)
 	exhaustive := cf.Len()
 	// random long histories with eviction
 	nrand := 300
@@ -357,7 +377,7 @@ func Run(c *gen.Ctx) error {
 	}
 	meta.Evaluations = cf.Len()
 	meta.DistinctNontrivial = len(distinct)
-	meta.Rule = "request histories against handler.Server+POST+AutomaticPersistedQuery: exhaustive up to length 2 over a 19-form alphabet (3 texts x {text only, text+own hash, text+another text's hash, text+garbage hash, hash only, garbage hash only, malformed extension, wrong version, no query}) with MapCache and LRU(1); exhaustive length 3 over a 9-form core alphabet; random histories of length 4..12 with MapCache/LRU(1..3); every history up to length 3 over two texts that differ only in white space inside a string value x {text only, text + own hash, hash only}. The server has a parsed-document cache (as NewDefaultServer installs); what is observed as executed is the executed DOCUMENT, mapped back to the text it is the parse of. Non-trivial = a history in which some hash-only request resolved to a text; distinct by (cache, request list)."
+	meta.Rule = "request histories against handler.Server+POST+AutomaticPersistedQuery: exhaustive up to length 2 over a 19-form alphabet (3 texts x {text only, text+own hash, text+another text's hash, text+garbage hash, hash only, garbage hash only, malformed extension, wrong version, no query}) with MapCache and LRU(1); exhaustive length 3 over a 9-form core alphabet; random histories of length 4..12 with MapCache/LRU(1..3); every history up to length 3 over two texts that differ only in white space inside a string value x {text only, text + own hash, hash only}; every history up to length 3 over three white-space-padded forms of a text sent with the hash of the unpadded text, honest registrations and hash-only requests. The server has a parsed-document cache (as NewDefaultServer installs); what is observed as executed is the executed DOCUMENT, mapped back to the text it is the parse of. Non-trivial = a history in which some hash-only request resolved to a text; distinct by (cache, request list)."
 	meta.Samples = []any{descr[exhaustive-1], descr[len(descr)-1]}
 	meta.Distribution = map[string]any{"exhaustive_cases": exhaustive, "random_cases": nrand, "request_forms": kinds, "observed_outcomes": outcomes, "history_lengths": lens}
 	return meta.Write(c.OutDir)
